@@ -176,6 +176,7 @@ class Translator:
             elif q.endswith('&'): q = q[:-1].strip(); ref = True
             if q.startswith('const '): q = q[6:].strip(); const = True
             if q.endswith(' const'): q = q[:-6].strip(); const = True
+            if q.endswith('*const'): q = q[:-5].strip()
             for p in ('typename ', 'struct ', 'class ', 'volatile '):
                 if q.startswith(p): q = q[len(p):].strip()
             if q in self.aliases and self.aliases[q] != q:
@@ -330,6 +331,14 @@ class Translator:
     def func_cname(self, decl):
         i = decl['id']
         if i in self.funcnames: return self.funcnames[i]
+        if decl.get('kind') == 'FunctionDecl' and i not in self.owner_of:
+            # the same free-function instantiation can appear in several AST dumps (different ids): one C function
+            sig = ('sig', decl.get('name'), decl.get('type', {}).get('qualType'), tuple(a.get('type', {}).get('qualType', '') for a in decl.get('inner', []) if a.get('kind') == 'TemplateArgument'))
+            if sig in self.funcnames:
+                self.funcnames[i] = self.funcnames[sig]; self.done.add(i); return self.funcnames[i]
+            self._pending_sig = sig
+        else:
+            self._pending_sig = None
         name = decl.get('name', '')
         k = decl['kind']
         oq = self.owner_of.get(i)
@@ -367,6 +376,7 @@ class Translator:
             while f'{cn}_{n}' in used: n += 1
             cn = f'{cn}_{n}'
         self.funcnames[i] = cn
+        if getattr(self, '_pending_sig', None): self.funcnames[self._pending_sig] = cn; self._pending_sig = None
         return cn
 
     def has_body(self, decl):
@@ -465,6 +475,8 @@ class Translator:
         if ck in ('NoOp', 'LValueToRValue'): return self.E(n['inner'][0], cx)
         if ck in ('IntegralCast',):
             t = self.ctype(self.qt(n)); return f'(({t.c})({self.E(n["inner"][0], cx)}))'
+        if ck == 'BitCast':
+            t = self.ctype(self.qt(n)); return f'(({t.c})({self.E(n["inner"][0], cx)}))'
         if ck == 'BaseToDerived':
             # pointer to a base subobject -> pointer to the enclosing derived object (CRTP-style mixin access)
             sub = n['inner'][0]; src = self.ctype(self.qt(self.skip(sub))); dst = self.ctype(self.qt(n))
@@ -501,13 +513,36 @@ class Translator:
         return f'(({t.c})({self.E(n["inner"][0], cx)}))'
 
     def E_CXXNewExpr(self, n, cx):
-        if not n.get('isPlacement'): raise Unsupported(f'non-placement new in {cx.cname}')
         kids = n.get('inner', [])
         ctor = [k for k in kids if self.skip(k).get('kind') in ('CXXConstructExpr',)]
         place = [k for k in kids if k not in ctor]
+        if not n.get('isPlacement'):
+            # new T(args): allocation + construction (value records: the constructed value is stored)
+            if len(ctor) != 1 or place: raise Unsupported(f'new expression shape in {cx.cname}')
+            t = self.ctype(self.qt(self.skip(ctor[0])))
+            if t.cls != 'record' or t.c not in self.cfg.get('value_records', []): raise Unsupported(f'new of {t} in {cx.cname}')
+            return f'NEW_OBJ({t.c}, {self.E(ctor[0], cx)})'
         if len(ctor) != 1 or len(place) != 1: raise Unsupported(f'placement new shape in {cx.cname}')
-        t = self.ctype(self.qt(self.skip(ctor[0])))
+        cs = self.skip(ctor[0])
+        t = self.ctype(self.qt(cs))
+        if t.cls == 'record' and t.c not in self.cfg.get('value_records', []):
+            # placement new of a record of this unit: its extracted constructor runs on the storage
+            c = self.find_ctor(t, cs); self.enqueue(c)
+            a = [f'(({t.c} *)({self.E(place[0], cx)}))'] + self.pass_args(self.params_of(c), cs.get('inner', []), cx) + self.ghost_args()
+            return f'{self.func_cname(c)}({", ".join(a)})'
         return f'PLACEMENT_NEW({t.c}, {self.E(place[0], cx)}, {self.E(ctor[0], cx)})'
+
+    def E_CXXDeleteExpr(self, n, cx):
+        sub = n['inner'][0]
+        t = self.ctype(self.qt(self.skip(sub)))
+        if t.cls != 'ptr' or t.elem.cls != 'record': raise Unsupported(f'delete of {t} in {cx.cname}')
+        return f'DELETE_OBJ({t.elem.c}, {self.E(sub, cx)})'
+
+    def E_ImplicitValueInitExpr(self, n, cx):
+        t = self.ctype(self.qt(n))
+        if t.cls in ('ptr', 'fnptr', 'sp'): return 'NULL'
+        if t.cls in ('builtin', 'enum'): return '0'
+        raise Unsupported(f'value-initialisation of {t} in {cx.cname}')
 
     def E_CXXBoolLiteralExpr(self, n, cx): return '1' if n['value'] else '0'
     def E_IntegerLiteral(self, n, cx):
@@ -603,6 +638,10 @@ class Translator:
                 tas = [a.get('type', {}).get('qualType') for a in (d or {}).get('inner', []) if a.get('kind') == 'TemplateArgument'] if d else []
                 if tas:
                     try: targ = self.ctype(tas[0]).c
+                    except Unsupported: targ = None
+                if targ is None and getattr(cx, 'targs', None):
+                    # `&f<T>` inside a template instantiated on T: the tag type is the enclosing instantiation's argument
+                    try: targ = self.ctype(cx.targs[0]).c
                     except Unsupported: targ = None
                 if targ is None:
                     ft = self.ctype(self.qt(n))
@@ -797,6 +836,11 @@ class Translator:
         cls = tcls.cls
         if cls == 'record':
             d = self.byid.get(callee.get('referencedMemberDecl'))
+            if name.startswith('~') and tcls.c not in self.cfg.get('opaque_records', []):
+                try: d = self.find_dtor(tcls)
+                except Unsupported: d = None
+                if d is not None:
+                    self.enqueue(d); return f'{self.func_cname(d)}({", ".join([optr()] + self.ghost_args())})'
             if d is None or not self.has_body(d):
                 d2 = self.resolve_method(tcls, name, len(args), self.qt(obj))
                 if d2 is not None: d = d2
@@ -893,6 +937,8 @@ class Translator:
     def opaque_call(self, rec, name, optr, args, n, cx):
         """member function of a record whose definition is outside the unit: environment stub.
         prvalue arguments are passed by value, everything else by address"""
+        if name.startswith('~'):
+            return f'{rec.c}_DTOR({optr})'           # explicit destructor call on an opaque (user) type
         opn = {'operator=': 'assign', 'operator()': 'call'}.get(name, re.sub(r'\W+', '_', name))
         if name == 'operator=' and args:
             opn = 'assign_move' if (self.is_move_call(args[0]) is not None or self.skip(args[0]).get('valueCategory') == 'xvalue') else 'assign_copy'
@@ -1042,7 +1088,7 @@ class Translator:
                 return f'WVEC_SWAP({self.addr_of(args[0], cx)}, {self.addr_of(args[1], cx)})'
             if t.cls == 'map':
                 return f'WMAP_SWAP({self.addr_of(args[0], cx)}, {self.addr_of(args[1], cx)})'
-            if t.cls in ('ptr', 'builtin'):
+            if t.cls in ('ptr', 'builtin', 'fnptr'):
                 return f'SCALAR_SWAP({self.addr_of(args[0], cx)}, {self.addr_of(args[1], cx)})'
             if t.cls == 'sp':
                 return f'SP_SWAP({self.addr_of(args[0], cx)}, {self.addr_of(args[1], cx)})'
@@ -1072,7 +1118,9 @@ class Translator:
             try: return self.ctype(self.qt(x)).cls == 'fnptr'
             except Unsupported: return False
         if c0.get('kind') in ('MemberExpr', 'DeclRefExpr') and is_fnptr(c0):
-            return f'FNPTR_CALL({self.E(n["inner"][0], cx)}, {", ".join(self.E(x, cx) for x in args)})'
+            mac = 'FNPTR_CALL'
+            if self.cfg.get('fnptr_by_member') and c0.get('kind') == 'MemberExpr': mac += '_' + c0.get('name', '')     # one dispatcher per function-pointer member
+            return f'{mac}({self.E(n["inner"][0], cx)}, {", ".join(self.E(x, cx) for x in args)})'
         if nm == '__assert_fail':
             return 'SRC_ASSERT_FAIL()'
         if nm == 'make_shared':
@@ -1372,6 +1420,18 @@ class Translator:
             s = self.skip(init) if init else None
             cx.emit(f'{t.c} {name};')
             cx.vars[v['id']] = (name, t)
+            if s is not None and s.get('kind') == 'InitListExpr':
+                # aggregate (e.g. a static table of function pointers): a C initialiser list
+                cx.lines.pop()
+                sc = 'static ' if v.get('storageClass') == 'static' else ''
+                init = ", ".join(self.E(x, cx) for x in s.get("inner", []))
+                if sc:
+                    # function-local static table: (re)initialised on every call with the same constants -- CBMC's contract
+                    # instrumentation does not keep initialisers of local statics
+                    cx.emit(f'static {t.c} {name};'); cx.emit(f'{name} = ({t.c}){{ {init} }};')
+                else:
+                    cx.emit(f'{t.c} {name} = {{ {init} }};')
+                return
             if s is None or s.get('kind') != 'CXXConstructExpr':
                 raise Unsupported(f'record variable {name} without constructor call in {cx.cname}')
             ctor = self.find_ctor(t, s)
@@ -1408,6 +1468,10 @@ class Translator:
         for c in self.records[q].get('inner', []):
             if c.get('kind') == 'CXXConstructorDecl' and strip_ns(c['type']['qualType']) == want and self.has_body(c):
                 return c
+            if c.get('kind') == 'FunctionTemplateDecl':      # constructor template: its instantiations
+                for x in c.get('inner', []):
+                    if x.get('kind') == 'CXXConstructorDecl' and strip_ns(x['type']['qualType']) == want and self.has_body(x):
+                        return x
         raise Unsupported(f'constructor {want} of {q} not found')
 
     def find_dtor(self, t):
@@ -1666,6 +1730,7 @@ class Translator:
         oq = self.owner_of.get(decl['id'])
         is_static = decl.get('storageClass') == 'static'
         cx = Ctx(self, cn)
+        cx.targs = [a.get('type', {}).get('qualType', '') for a in decl.get('inner', []) if a.get('kind') == 'TemplateArgument' and a.get('type')]
         cx.self_type = self.cname_of_record(oq) if oq and not is_static else None
         selfp = f'{cx.self_type} *self' if cx.self_type else None
         body = [c for c in decl['inner'] if c.get('kind') == 'CompoundStmt'][0]
